@@ -321,9 +321,10 @@ def model_bad_fixture_action(model, site, action):
     model.stages.append(("run", stage))
     if model.decide(stage) != pg.RET:
         raise AssertionError("bad-details fixtures never fail setUp")
-    # useFixture registers fixture.cleanUp BEFORE it asks for the details
+    # useFixture registers fixture.cleanUp and, after it, the gathering of the fixture's details,
+    # which happens when that cleanup runs (it fails then - an error of the test - and the
+    # fixture is cleaned up all the same); the stage that used the fixture goes on
     model.stack.append(("fxclean", (fid,)))
-    raise pg.ModelAbort(pg.ERROR)
 
 
 pg.MODEL_ACTION_HANDLERS["fixture"] = model_fixture_action
